@@ -226,6 +226,12 @@ func ubounds(t *Term) (uint64, uint64) {
 		if h0+h1 >= h0 && h0+h1 <= mask(t.S.W) {
 			lo, hi = l0+l1, h0+h1
 		}
+	case OpSub:
+		l0, h0 := ubounds(t.Args[0])
+		l1, h1 := ubounds(t.Args[1])
+		if l0 >= h1 {
+			lo, hi = l0-h1, h0-l1
+		}
 	case OpMul:
 		l0, h0 := ubounds(t.Args[0])
 		l1, h1 := ubounds(t.Args[1])
@@ -415,6 +421,14 @@ func BinBV(op Op, a, b *Term) *Term {
 	case OpSub:
 		if b.IsConst() && b.Val == 0 {
 			return a
+		}
+		if a.Op == OpAdd {
+			if sameTerm(a.Args[0], b) {
+				return a.Args[1]
+			}
+			if sameTerm(a.Args[1], b) {
+				return a.Args[0]
+			}
 		}
 		if sameTerm(a, b) {
 			return BVC(0, w)
